@@ -49,6 +49,13 @@ type VC struct {
 	fn      string
 	symMark map[*Term]int
 	defs    map[*Term]*Term
+	noDefine int // > 0 while evaluating under a quantifier: terms may mention bound variables
+	defMemo  map[*Term]defEntry
+}
+
+type defEntry struct {
+	v   *Term
+	idx int
 }
 
 func (vc *VC) fresh(hint string, s *Sort) *Term {
@@ -85,15 +92,22 @@ func (vc *VC) assume(t *Term) {
 
 // define introduces a name for t when t is big, to keep printed VCs DAG-sized.
 func (vc *VC) define(hint string, t *Term) *Term {
-	if t.size <= 12 || t.Op == "var" || t.IsLit() {
+	if t.size <= 12 || t.Op == "var" || t.IsLit() || vc.noDefine > 0 {
 		return t
+	}
+	// the same term gets the same name (as long as its defining fact is still present: dry runs
+	// of loop bodies discard the facts they added)
+	if e, ok := vc.defMemo[t]; ok && e.idx < len(vc.facts) && vc.facts[e.idx].Def == e.v {
+		return e.v
 	}
 	v := vc.fresh(hint, t.S)
 	vc.facts = append(vc.facts, Fact{T: mk("=", "", BoolS, nil, v, t), Def: v})
 	if vc.defs == nil {
 		vc.defs = map[*Term]*Term{}
+		vc.defMemo = map[*Term]defEntry{}
 	}
 	vc.defs[v] = t
+	vc.defMemo[t] = defEntry{v, len(vc.facts) - 1}
 	return v
 }
 
@@ -392,6 +406,9 @@ func (o *Obligation) emit(p *Prelude, noCOI bool, mode string) string {
 				}
 				for _, u := range b.Uses {
 					if _, isfn := p.Fns[u]; isfn && !gf[u] {
+						if p.Ring[u] && !p.Ring[head] {
+							continue // a definition mentioning + and * does not pull in the ring axioms
+						}
 						gf[u] = true
 						changed = true
 					}
